@@ -115,6 +115,16 @@ Proof.
   intros Hk. destruct (topsort_good (items_of pd) Hk) as (out & E & _). exists out. now apply topsort_sorted_file.
 Qed.
 
+Lemma topsort_gives_sorted_file pd :
+  (forall out, topsort (items_of pd) = Ok out -> sorted_file pd out) /\
+  (known_C11 (items_of pd) = None -> exists out, sorted_file pd out).
+Proof. split; [exact (topsort_sorted_file pd)|exact (sorted_file_exists pd)]. Qed.
+
+Lemma writes_seq_meaning (St A : Type) (f : A -> M St str) (items : list A) (st : St) (parts : list str) (st' : St) :
+  (writes_seq f items st parts st' <-> mmapM f items st = Ok (parts, st')) /\
+  (writes_seq f items st parts st' -> length parts = length items).
+Proof. split; [symmetry; apply mmapM_writes_seq|apply writes_seq_length]. Qed.
+
 (* ---------------------------------------------------------------- (1) the generators, one by one *)
 
 (* TypeScript: header, import lines, the pieces, end_file (the custom-JSON helpers of the state reached) *)
